@@ -228,6 +228,40 @@ K_STDIN = "xzgrep:stdin-named-dash"
 K_CONFLICT = "xzgrep:conflicting-options-precedence"
 K_DASH2 = "xzdiff:dash-second-operand-not-stdin"
 K_NLSTEM = "xzdiff:single-operand-stem-trailing-newline"
+K_TQUOTE = "xzgrep:option-word-ending-in-quote"
+
+
+def trailing_quote_word(args):
+    """xzgrep re-quotes an option word for eval with the test (*\\'?*): a word whose only apostrophe is its last
+    character (-ea'  --regexp=a'  -fx') is wrapped in quotes unescaped.  True if args contain such a word."""
+    for l, pieces in grep_items_raw(args):
+        if l in (None, "--"):
+            continue
+        w = pieces[0]
+        if len(pieces) == 1 and w.count("'") == 1 and w.endswith("'"):
+            return True
+    return False
+
+
+def grep_items_raw(args):
+    """Like grep_items but argv words are kept whole (no bundle splitting): (kind, [word] or [word, separate arg])."""
+    out, i, n = [], 0, len(args)
+    while i < n:
+        a = args[i]; i += 1
+        if a == "--":
+            out.append(("--", [a])); out += [(None, [x]) for x in args[i:]]
+            break
+        if a.startswith("-") and len(a) > 1:
+            sep = (len(a) == 2 and a[1] in "ABCDefmX") or \
+                  (a.startswith("--") and "=" not in a and a.startswith(("--binary-", "--file", "--la", "--ma", "--reg"))
+                   and not a.startswith("--files"))
+            if sep and i < n:
+                out.append(("o", [a, args[i]])); i += 1
+            else:
+                out.append(("o", [a]))
+        else:
+            out.append((None, [a]))
+    return out
 
 
 def grep_items(args):
@@ -284,6 +318,8 @@ def strip_sep(b):
 def explain_grep(c, path, t, o, oracle):
     """t, o = (status, stdout) of xzgrep and of grep.  Returns the list of fixed keys that explain the difference
     completely, or None."""
+    if trailing_quote_word(c["args"]):
+        return [K_TQUOTE]
     items = grep_items(c["args"])
     letters = [l for l, _ in items if l not in (None, "--")]
     ctx = any(l in ("A", "B", "C") for l in letters)
@@ -348,9 +384,12 @@ def explain_diff(c, t, o, oracle):
 
 def norm_cmp(b):
     """cmp prints 'NAME1 NAME2 differ: byte N, line M'; xzcmp's operands are pipes, so only the verdict part
-    (from ' differ:' on) is comparable."""
+    (from ' differ:' on) is comparable; column padding of cmp -l is squeezed."""
     i = b.rfind(b" differ: ")
-    return b[i:] if i >= 0 else b
+    if i >= 0:
+        return b[i:]
+    # cmp -l pads its first column according to the file size, which is unknown for a pipe
+    return b"\n".join(b" ".join(l.split()) for l in b.split(b"\n"))
 
 
 def run_case(env, c, verbose=False):
@@ -446,6 +485,10 @@ def run_case(env, c, verbose=False):
                 got = set(os.listdir(d))
                 exp = expect_names if d == z else {x for x in expect_names
                                                   if not any(f[0] == x and f[3] != "ok" for f in c["files"])}
+                if CANARY in got and family == "grep" and trailing_quote_word(c["args"]):
+                    fails.append((K_TQUOTE, "a command embedded in an option argument was executed (%s created)" % CANARY))
+                    os.unlink(os.path.join(d, CANARY))
+                    got.discard(CANARY)
                 if CANARY in got:
                     fails.append(("%s:canary:%s" % (tool, tag),
                                   "a command embedded in an operand was executed: %s appeared in the %s directory"
@@ -455,8 +498,6 @@ def run_case(env, c, verbose=False):
                 if got != exp:
                     fails.append(("%s:stray-file:%s" % (tool, tag), "directory content changed: %r"
                                   % sorted(got ^ exp)))
-        if os.listdir(env.tmp):
-            pass    # other cases run concurrently; checked once at the end
         nontrivial = (c["expect"] != "mirror") or bool(oout) or orc not in (1, None)
         return fails, len(c["paths"]), obs, nontrivial
     finally:
@@ -471,31 +512,42 @@ def dash(n):
 
 
 def grid_grep_names(env, tier):
-    """Hostile file names: 3 files (hostile one in the middle), 1 file with -H; -l/-L printing paths."""
+    """Hostile file names: 3 files (hostile one in the middle), 1 file with -H; -l/-L printing paths.
+    Two argument styles: "dd" = OPTIONS -- PATTERN FILES (operands bypass xzgrep's option loop), "plain" = OPTIONS
+    -e PATTERN FILES with ./ in front of names that begin with '-' (operands are re-quoted by the option loop).
+    thorough: every layout in both styles; quick: each layout in one fixed style (both for names beginning with '-')."""
     T = tier == "thorough"
+    both = ("label", "sed")
+
+    def A(st, opts, pat, names):
+        if st == "dd":
+            return opts + ["--", pat] + names
+        return opts + ["-e", pat] + [dash(x) for x in names]
     for n in seqs(3 if T else 2):
         for sfx_fmt in (["xz", "gz", "bz2", "lzma"] if T else ["xz"]):
             if sfx_fmt not in env.formats():
                 continue
             fn = n + SUFFIX[sfx_fmt]
             three = [("p0.xz", "xz", "N1", "ok"), (fn, sfx_fmt, "N2", "ok"), ("q9.xz", "xz", "N3", "ok")]
-            styles = ["dd"] + (["dot"] if fn.startswith("-") else [])
-            for st in styles:
-                def A(opts, pat, names):
-                    if st == "dd":
-                        return opts + ["--", pat] + names
-                    return opts + ["-e", pat] + [dash(x) for x in names]
-                nm3 = [f[0] for f in three]
-                both = ("label", "sed")
-                if sfx_fmt == "xz":
-                    yield mkcase("names3", "xzgrep", A([], "a", nm3), three, both)
-                    yield mkcase("names3-l", "xzgrep", A(["-l"], "a", nm3), three)
-                    yield mkcase("names3-L", "xzgrep", A(["-L"], "alpha", nm3), three)
-                    if T:
-                        yield mkcase("names3-c", "xzgrep", A(["-c"], "a", nm3), three, both)
-                        yield mkcase("names3-n", "xzgrep", A(["-n"], "only-in-two", nm3), three, both)
-                        yield mkcase("names1", "xzgrep", A([], "a", [fn]), [three[1]])
-                yield mkcase("names1-H", "xzgrep", A(["-H"], "a", [fn]), [three[1]], both)
+            nm3 = [f[0] for f in three]
+            every = T or fn.startswith("-")
+
+            def styles(default):
+                return ("dd", "plain") if every else (default,)
+            if sfx_fmt == "xz":
+                for st in styles("plain"):
+                    yield mkcase("names3", "xzgrep", A(st, [], "a", nm3), three, both)
+                for st in styles("dd"):
+                    yield mkcase("names3-l", "xzgrep", A(st, ["-l"], "a", nm3), three)
+                for st in styles("plain"):
+                    yield mkcase("names3-L", "xzgrep", A(st, ["-L"], "alpha", nm3), three)
+                if T:
+                    for st in styles("dd"):
+                        yield mkcase("names3-c", "xzgrep", A(st, ["-c"], "a", nm3), three, both)
+                        yield mkcase("names3-n", "xzgrep", A(st, ["-n"], "only-in-two", nm3), three, both)
+                        yield mkcase("names1", "xzgrep", A(st, [], "a", [fn]), [three[1]])
+            for st in styles("dd"):
+                yield mkcase("names1-H", "xzgrep", A(st, ["-H"], "a", [fn]), [three[1]], both)
 
 
 def grid_grep_patfiles(env, tier):
@@ -525,23 +577,42 @@ def grid_grep_patterns(env, tier):
     two = one + [("p2.xz", "xz", "F3", "ok")]
     for p in pats:
         deliveries = [("pos", ["--", p], []), ("e", ["-e", p], [])]
+        if not p.startswith("-"):
+            deliveries.append(("pos0", [p], []))       # operand seen (and re-quoted) by xzgrep's option loop
+        if p:
+            deliveries.append(("eatt", ["-e" + p], []))
         if T:
             deliveries.append(("regexp", ["--regexp=" + p], []))
             deliveries.append(("regexp2", ["--regexp", p], []))
-            if p:
-                deliveries.append(("eatt", ["-e" + p], []))
         for dn, pre, _ in deliveries:
-            tools = ["xzgrep", "xzegrep", "xzfgrep"] if (T or dn == "pos") else ["xzgrep"]
+            if T:
+                tools = ["xzgrep", "xzegrep", "xzfgrep"]
+            else:       # quick: xzgrep takes pos0 when possible, the -E/-F links take the "--" form
+                tools = {"pos": ["xzegrep", "xzfgrep"] + (["xzgrep"] if p.startswith("-") else []),
+                         "pos0": ["xzgrep"]}.get(dn, ["xzgrep"])
             for tool in tools:
                 if T:
                     yield mkcase("pattern-" + dn, tool, pre + ["pp.xz", "p2.xz"], two, ("label", "sed"))
                     yield mkcase("pattern-" + dn, tool, ["-c"] + pre + ["pp.xz"], one)
                 else:
                     # quick: positional patterns take the label path with one file, -e the sed path with two
-                    if dn == "pos":
+                    if dn in ("pos", "pos0"):
                         yield mkcase("pattern-" + dn, tool, pre + ["pp.xz"], one)
                     else:
                         yield mkcase("pattern-" + dn, tool, pre + ["pp.xz", "p2.xz"], two, ("sed",))
+
+
+def grid_grep_optpairs(env, tier):
+    """Two hostile option arguments in one command line (what one broken quote opens the next one can close)."""
+    T = tier == "thorough"
+    files = [("pp.xz", "xz", "P", "ok")]
+    for p1 in seqs(1):
+        for p2 in seqs(2 if T else 1):
+            forms = [["-e" + p1, "-e" + p2]]
+            if T:
+                forms += [["--regexp=" + p1, "--regexp=" + p2], ["-e", p1, "-e", p2], ["-e" + p2, "-e" + p1]]
+            for f in forms:
+                yield mkcase("optpair", "xzgrep", f + ["pp.xz"], files)
 
 
 OPT_ATOMS = [["-l"], ["-L"], ["-h"], ["-H"], ["-c"], ["-q"], ["-i"], ["-n"], ["-e", "e"], ["-f", "pats"], ["-A1"],
@@ -709,21 +780,24 @@ def grid_diff_names(env, tier):
     T = tier == "thorough"
     for n in seqs(3 if T else 2):
         fn = n + ".xz"
-        styles = ["dd"] + (["dot"] if n.startswith("-") else [])
+        styles = ["dd", "plain"] if (T or n.startswith("-")) else ["mix"]
         for st in styles:
-            def A(names):
-                return ["--"] + names if st == "dd" else [dash(x) for x in names]
-            pl = n if st == "dd" else dash(n)
+            def A(names, quick_style="dd"):
+                s_ = quick_style if st == "mix" else st
+                return ["--"] + names if s_ == "dd" else [dash(x) for x in names]
             yield mkcase("names-diff", "xzdiff", A([fn, "y.xz"]), [(fn, "xz", "DA", "ok"), ("y.xz", "xz", "DB", "ok")])
-            yield mkcase("names-equal", "xzcmp", A(["x.xz", fn]), [("x.xz", "xz", "DA", "ok"), (fn, "xz", "DA", "ok")])
+            if T:
+                yield mkcase("names-equal", "xzcmp", A(["x.xz", fn]), [("x.xz", "xz", "DA", "ok"), (fn, "xz", "DA", "ok")])
             if n != "-":      # a plain operand called "-" is standard input
-                yield mkcase("names-mixed", "xzdiff", A([n, fn]), [(n, "plain", "DA", "ok"), (fn, "xz", "DB", "ok")])
-                yield mkcase("names-mixed", "xzcmp", A([fn, n]), [(fn, "xz", "DA", "ok"), (n, "plain", "DA", "ok")])
+                yield mkcase("names-mixed", "xzdiff", A([n, fn], "plain"),
+                             [(n, "plain", "DA", "ok"), (fn, "xz", "DB", "ok")])
+                yield mkcase("names-mixed", "xzcmp", A([fn, n], "plain"),
+                             [(fn, "xz", "DA", "ok"), (n, "plain", "DA", "ok")])
             yield mkcase("names-missing", "xzdiff", A([fn, "y.xz"]), [(fn, "xz", "DA", "missing"),
                                                                      ("y.xz", "xz", "DA", "ok")], expect="status2")
-            yield mkcase("names-corrupt", "xzcmp", A(["x.xz", fn]), [("x.xz", "xz", "DA", "ok"),
-                                                                    (fn, "xz", "DA", "corrupt")], expect="status2")
             if T:
+                yield mkcase("names-corrupt", "xzcmp", A(["x.xz", fn]), [("x.xz", "xz", "DA", "ok"),
+                                                                        (fn, "xz", "DA", "corrupt")], expect="status2")
                 fg = n + ".gz"
                 if "gz" in env.formats():
                     yield mkcase("names-gz", "xzdiff", A([fg, fn]), [(fg, "gz", "DA", "ok"), (fn, "xz", "DB", "ok")])
@@ -739,7 +813,7 @@ def grid_diff_single(env, tier):
         for n in stems:
             fn = n + SUFFIX[f]
             other = n + STRIPPED[f]
-            for ck in ("DA", "DB"):
+            for ck in (("DA", "DB") if T else ("DB",)):
                 for tool in (("xzdiff", "xzcmp") if T else ("xzdiff",)):
                     a = dash(fn)
                     o = dash(other)
@@ -756,7 +830,7 @@ def grid_diff_options(env, tier):
         yield mkcase("diffopt", "xzdiff", ["--ignore-matching-lines=" + t, "x.xz", "y.xz"], files)
 
 
-GRIDS = [grid_diff_pairs, grid_grep_formats, grid_grep_badops, grid_diff_options, grid_grep_longopts,
+GRIDS = [grid_grep_optpairs, grid_diff_pairs, grid_grep_formats, grid_grep_badops, grid_diff_options, grid_grep_longopts,
          grid_grep_options, grid_grep_bundles, grid_grep_patterns, grid_grep_patfiles, grid_diff_single,
          grid_grep_names, grid_diff_names]
 
@@ -783,38 +857,41 @@ def run(tier):
             ck.infra_errors += errs
             return ck.finish(rule="(self-check of the generated inputs failed)")
         cases = list(all_cases(env, tier))
-        lock = threading.Lock()
         skipped = [0]
         persub = {}
 
         def work(c):
             if ck.time_left() < 20:
-                with lock:
-                    skipped[0] += 1
-                return
+                return None
             fails, runs, obs, nontrivial = run_case(env, c)
+            note = None
             if fails:                       # a failure must reproduce before it is reported
                 fails2, _, _, _ = run_case(env, c)
                 k2 = {k for k, _ in fails2}
                 unstable = [f for f in fails if f[0] not in k2]
                 fails = [f for f in fails if f[0] in k2]
                 if unstable:
-                    with lock:
-                        ck.notes.append("not reproduced on a second run (ignored): %s %r" % (unstable[0][0], c["args"]))
-            with lock:
-                ck.add("evals", runs)
-                if nontrivial:
-                    ck.add("distinct", 1)
-                ck.add("cases", 1)
-                s = persub.setdefault(c["tool"] + "/" + c["sub"], {"cases": 0, "runs": 0})
-                s["cases"] += 1; s["runs"] += runs
-                for o in obs:
-                    ck.obs.add(o)
-                for key, text in fails:
-                    ck.fail(key, "%s %s: %s" % (c["tool"], json.dumps(c["args"]), text), json.dumps(c))
+                    note = "not reproduced on a second run (ignored): %s %r" % (unstable[0][0], c["args"])
+            return fails, runs, obs, nontrivial, note
 
         with concurrent.futures.ThreadPoolExecutor(vlib.NCPU) as ex:
-            list(ex.map(work, cases))
+            results = list(ex.map(work, cases))
+        for c, r in zip(cases, results):        # folded in enumeration order: reports are deterministic
+            if r is None:
+                skipped[0] += 1
+                continue
+            fails, runs, obs, nontrivial, note = r
+            ck.add("evals", runs)
+            ck.add("cases", 1)
+            if nontrivial:
+                ck.add("distinct", 1)
+            s = persub.setdefault(c["tool"] + "/" + c["sub"], {"cases": 0, "runs": 0})
+            s["cases"] += 1; s["runs"] += runs
+            ck.obs.update(obs)
+            if note and len(ck.notes) < 40:
+                ck.notes.append(note)
+            for key, text in fails:
+                ck.fail(key, "%s %s: %s" % (c["tool"], json.dumps(c["args"]), text), json.dumps(c))
         if skipped[0]:
             ck.exhaustive = False
             ck.notes.append("%d of %d cases not run before the deadline" % (skipped[0], len(cases)))
@@ -839,10 +916,17 @@ def run(tier):
             "-q with unreadable operands is not in the grid (grep -q may stop at the first match)",
             "formats: " + " ".join(env.formats()) + " + uncompressed; lzop/zstd/lz4 branches are not exercised",
             "xzless/xzmore are interactive pagers and not covered",
+            "left out of the option grids because xzgrep does not claim them: a letter of -l/-L/-h/-H followed only by "
+            "digits in one word (-h1 is not split, the letter stays unseen), long options with a separate argument other "
+            "than --regexp/--file/--max-count/--label (--after-context 1), --label/--initial-tab on the sed path; what "
+            "-c/-l/-L print FOR an unreadable operand is not compared (status is)",
+            "reproducible differences of the unchanged scripts are reported under the fixed keys %s, each only when the "
+            "stated transformation / alternative grep run explains the difference exactly" % ", ".join(
+                [K_CTXSEP, K_SEDCTX, K_STDIN, K_CONFLICT, K_TQUOTE, K_DASH2, K_NLSTEM]),
         ]
         return ck.finish(
             rule="union of complete grids (names x layouts, patterns x delivery x tool, option sets x file counts x "
-                 "patterns, bundled options, long options, format tuples, bad operands, xzdiff/xzcmp operand-kind pairs, "
+                 "patterns, pairs of hostile option arguments, bundled options, long options, format tuples, bad operands, xzdiff/xzcmp operand-kind pairs, "
                  "hostile xzdiff names, single-operand xzdiff, hostile diff options), each element run with the built "
                  "script (once per labelling path) and compared with grep/diff/cmp on the mirror directory; evaluations "
                  "= script runs; distinct = distinct cases whose oracle result is non-trivial (output or status != 1, "
